@@ -1027,6 +1027,12 @@ class Controller:
                 if comp not in self.comp_staged_in:
                     return False
 
+                # VV: a subject that is on its way to a final state without having been observed as done (e.g. it
+                # was shut down before it ever ran because its own producers shut down) does not count as launched;
+                # wait till the controller records its termination and then apply the rules for finished producers
+                if comp.finishCalled:
+                    return False
+
             return True
 
     def _schedule(self, migrated_components):
